@@ -102,6 +102,10 @@ func New(e *sched.Exec, o Options) *World {
 			return nil
 		}
 	}
+	w.Dst.OnWrite = func(c cid.Cid) {
+		pi, bi := w.Locate(c)
+		e.Log("store-write pub%d block[%d]", pi, bi)
+	}
 	w.HookGate = func(h syncfx.HookCall) {
 		pi, bi := w.Locate(h.Cid)
 		e.Log("hook %s pub%d block[%d]", h.Tag, pi, bi)
